@@ -21,7 +21,7 @@ type C18 struct{}
 
 func (e *C18) Name() string { return "fn.c18" }
 func (e *C18) Rule() string {
-	return "seeded populations of 1-4 settings (creation times equal/different, matchLabels/matchExpressions/empty (select-everything) selectors, with/without reference, some being deleted behind a finalizer, optionally one unusable selector, optionally one in another namespace) x 1-4 labelled nodes; every permutation of the reconcile order (<=24), two passes each, through the real setting reconciler; then one real replica-set sync whose created pods show which setting was attached to which node; non-trivial = distinct populations with at least two settings overlapping on a node"
+	return "seeded populations of 1-4 settings, one in twelve of 9-20 settings (creation times equal/different, matchLabels/matchExpressions/empty (select-everything) selectors, with/without reference, some being deleted behind a finalizer, optionally one unusable selector, optionally one in another namespace) x 1-4 labelled nodes; every permutation of the reconcile order (<=24), two passes each, through the real setting reconciler; then one real replica-set sync whose created pods show which setting was attached to which node; non-trivial = distinct populations with at least two settings overlapping on a node"
 }
 func (e *C18) Cases(tier string, _ int64) int {
 	if tier == "thorough" {
@@ -125,6 +125,10 @@ func (e *C18) Run(ctx *core.Ctx, idx int) {
 		nodes = append(nodes, nodeD{fmt.Sprintf("n%d", i), l})
 	}
 	ns := 1 + r.Intn(4)
+	if r.Intn(12) == 0 {
+		ns = 9 + r.Intn(12) // a namespace with many settings (three reconcile orders instead of all of them)
+		ctx.Count("C18.populations-with-many-settings")
+	}
 	var sd []c18Setting
 	withBroken := r.Intn(5) == 0
 	for i := 0; i < ns; i++ {
@@ -178,7 +182,21 @@ func (e *C18) Run(ctx *core.Ctx, idx int) {
 	if withBroken {
 		ctx.Count("C18.broken-selector-populations")
 	}
-	for _, order := range perms(ns) {
+	orders := [][]int(nil)
+	if ns <= 4 {
+		orders = perms(ns)
+	} else {
+		fwd := make([]int, ns)
+		for i := range fwd {
+			fwd[i] = i
+		}
+		rev := make([]int, ns)
+		for i := range rev {
+			rev[i] = ns - 1 - i
+		}
+		orders = [][]int{fwd, rev, r.Perm(ns)}
+	}
+	for _, order := range orders {
 		simapi.SetNow(kit.T0)
 		s := simapi.NewStore()
 		for _, n := range nodes {
